@@ -135,9 +135,11 @@ PROPS['C08'] = {
 }
 PROPS['C09'] = {
     'group': 'plss', 'level': 'proof', 'build_timeout': 2400,
-    'explanation': 'Proved for all texts/settings: orig_index of the k-th tract is k; every tract trs is the normalised TRS(twprge+sec).trs; a non-matching non-empty string normalises to the error TRS (never '
-                   'the undefined one). That the attributes equal the decomposition of the final string (idempotence of normalisation) is proved only for the finite component domain (C12) and is decided '
-                   'on each run by an independent decomposition oracle on every tract of rendered/damaged/soup texts x configurations, with orig_desc/source/orig_index checked. ' + _PLSS_TIE,
+    'explanation': 'Proved for all texts/settings: orig_index of the k-th tract is k; every tract trs is the normalised TRS(twprge+sec).trs; the attribute dictionary the code derives for a tract is '
+                   'exactly the decomposition of the tract\'s final .trs string (C09_attributes_decompose, from the dictionary-level idempotence proved for EVERY string in Proofs/C12/Full.v); every '
+                   'tract trs is the error TRS or its raw string split into components that are at most case-normalised (C09_trs_strict); a non-matching non-empty string normalises to the error TRS. '
+                   'That the raw string never contains the undefined placeholder (it is built from digit and letter groups) is NOT a theorem: it, orig_desc/source/orig_index and the form of every '
+                   'tract are decided on each run by an independent decomposition oracle on rendered/damaged/soup texts x configurations. ' + _PLSS_TIE,
 }
 PROPS['C10'] = {
     'group': 'plss', 'level': 'proof', 'build_timeout': 2400,
